@@ -80,7 +80,8 @@ PLAN["C01"] = other(
 PLAN["C02"] = other(
     "Bounded: files written by save are parsed by an independent tokenizer written from Praat's format page and the "
     "README schemas; sizes, quote doubling, partition property, four formats agree; the spec writer/reader pair is "
-    "itself checked. Deductive: numeric codec kernel (shared with C01).",
+    "itself checked. Deductive: numeric codec kernel (shared with C01); _fillInBlanks proved to produce an ascending, "
+    "gap-free, overlap-free partition of the requested span.",
     "Written files are well-formed and the four formats agree on the stated bounded domain; numbers are printed "
     "decodably (proved kernel).", ["c02_wellformed", "spec_pair_selfcheck"])
 PLAN["C03"] = other(
@@ -89,10 +90,15 @@ PLAN["C03"] = other(
     "The reader returns what a spec-conformant file encodes on the stated bounded domain; blank removal and number "
     "decoding are proved.", ["c03_reader"])
 PLAN["C04"] = other(
-    "Bounded: sweep of sliver positions/lengths, thresholds, overrides and formats, files read back with the "
-    "independent reader. (The fold invariants for _fillInBlanks/_removeUltrashortIntervals are not built; stated.)",
-    "Saving adds only blanks and absorbs only sub-threshold slivers on the stated bounded domain.",
-    ["c04_save_sweep"], "; no deductive obligation is specific to C04 yet beyond the shared numeric kernel")
+    "Deductive: _fillInBlanks (closed-form fold rule for the carried prevEnd) is proved, for every sorted disjoint "
+    "tier and every min/max override, to return a gap-free, positive-length, sorted chain from the requested start to "
+    "the requested end, and to raise ParsingError exactly when the first entry starts before / the last ends after the "
+    "requested span. Bounded: sweep of sliver positions/lengths, thresholds, overrides and formats, files read back "
+    "with the independent reader (absorption of slivers, verbatim writing without blank filling, point tiers).",
+    "Blank filling yields a partition of the requested span and rejects entries outside it (proved for interval "
+    "tiers); sliver absorption and the remaining clauses on the stated bounded domain.",
+    ["c04_save_sweep"], "; _removeUltrashortIntervals (in-place accumulator fold) is not under contract; that the "
+    "original entries are among the written ones is checked bounded, not proved")
 PLAN["C10"] = other(
     "Deductive: the merge kernel IntervalTier.insertEntry(merge) that union is built on, and the overlap classifier "
     "getIntervalsInInterval (crop truncated) that intersection/mergeLabels/difference are built on, are proved against "
@@ -242,7 +248,8 @@ CANARIES = [
      "new": "            if interval.end < start:\n                newEntryList.append(interval)\n            # Entry exists after",
      "config": ["collisionMode=stretch"]},
     {"name": "space-split-right", "props": ["C08"], "file": IT, "target": ITC + ".insertSpace",
-     "old": "start + duration + (interval.end - start),", "new": "start + duration + (interval.end - interval.start),",
+     "old": "                            start + duration,\n                            interval.end + duration,",
+     "new": "                            start + duration,\n                            interval.end + duration + duration,",
      "config": ["collisionMode=split"]},
     {"name": "pspace-boundary", "props": ["C08"], "file": PT, "target": PTC + ".insertSpace",
      "old": "if point.time <= start:", "new": "if point.time < start:"},
@@ -255,6 +262,60 @@ CANARIES = [
     {"name": "insert-no-sort", "props": ["C11", "C05"], "file": IT, "target": ITC + ".insertEntry",
      "old": "        self.sort()\n\n        if self._entries[0][0]", "new": "        if self._entries[0][0]",
      "config": ["collisionMode=error,collisionReportingMode=silence"]},
+    {"name": "fill-gap-strict", "props": ["C04", "C02"], "file": "praatio/utilities/textgrid_io.py",
+     "target": "praatio.utilities.textgrid_io._fillInBlanks",
+     "old": "        if prevEnd < newStart:", "new": "        if prevEnd <= newStart:", "config": ["minTime=None,maxTime=None"]},
+    {"name": "fill-no-tail", "props": ["C04", "C02"], "file": "praatio/utilities/textgrid_io.py",
+     "target": "praatio.utilities.textgrid_io._fillInBlanks",
+     "old": "        if float(newEntries[-1][1]) < float(maxTime):", "new": "        if float(newEntries[-1][1]) < float(maxTime) and False:",
+     "config": ["minTime=None,maxTime=None"]},
+    {"name": "addtier-dup-check", "props": ["C12", "C13"], "file": "praatio/data_classes/textgrid.py",
+     "target": "praatio.data_classes.textgrid.Textgrid.addTier",
+     "old": "        if tier.name in self.tierNames:\n            raise errors.TierNameExistsError(\"Tier name already in tier\")\n",
+     "new": "", "config": ["k=1,tierIndex=None,reportingMode=silence,span=sym"]},
+    {"name": "replacetier-no-restore", "props": ["C13", "C12"], "file": "praatio/data_classes/textgrid.py",
+     "target": "praatio.data_classes.textgrid.Textgrid.replaceTier",
+     "old": "            self.addTier(oldTier, tierIndex, constants.ErrorReportingMode.SILENCE)\n", "new": "            pass\n",
+     "config": ["k=2,reportingMode=silence"]},
+    {"name": "tgcrop-span", "props": ["C12", "C06"], "file": "praatio/data_classes/textgrid.py",
+     "target": "praatio.data_classes.textgrid.Textgrid.crop",
+     "old": "            maxT = cropEnd - cropStart\n        else:\n            minT = cropStart\n            maxT = cropEnd\n        newTG",
+     "new": "            maxT = cropEnd\n        else:\n            minT = cropStart\n            maxT = cropEnd\n        newTG",
+     "config": ["k=1,mode=strict,rebaseToZero=True"]},
+    {"name": "pinsert-merge-order", "props": ["C11", "C10"], "file": PT, "target": PTC + ".insertEntry",
+     "old": "\"-\".join([oldPoint.label, newPoint.label])", "new": "\"-\".join([newPoint.label, oldPoint.label])",
+     "config": ["collisionMode=merge,collisionReportingMode=silence"]},
+    {"name": "median-window", "props": ["C20"], "file": "praatio/utilities/my_math.py",
+     "target": "praatio.utilities.my_math.medianFilter",
+     "old": "            for y in range(1, offset + 1):  # 1-based", "new": "            for y in range(1, offset):  # 1-based",
+     "config": ["window=4,useEdgePadding=True"]},
+    {"name": "erase-truncate-right", "props": ["C07"], "file": IT, "target": ITC + ".eraseRegion",
+     "old": "newEntry = Interval(end, matchList[-1].end, matchList[-1].label)", "new": "newEntry = Interval(end, matchList[0].end, matchList[-1].label)",
+     "config": ["collisionMode=truncate,doShrink=False"]},
+    {"name": "perase-inclusive", "props": ["C07"], "file": PT, "target": PTC + ".eraseRegion",
+     "old": "                if point.time < start:", "new": "                if point.time <= start:",
+     "config": ["collisionMode=truncate,doShrink=True"]},
+    {"name": "index-byte-rounding", "props": ["C16", "C17", "C18"], "file": "praatio/audio.py",
+     "target": "praatio.audio.Wav._getIndexAtTime",
+     "old": "return round(startTime * self.frameRate) * self.sampleWidth", "new": "return round(startTime * self.frameRate * self.sampleWidth)",
+     "config": ["rate=8000,width=2"]},
+    {"name": "numtostr-round", "props": ["C01", "C02", "C03"], "file": "praatio/utilities/my_math.py",
+     "target": "spec.harness.num_roundtrip",
+     "old": "if isclose(inputNum, int(inputNum)):", "new": "if isclose(inputNum, round(inputNum)):"},
+    {"name": "modify-values-time", "props": ["C19"], "file": "praatio/data_classes/klattgrid.py",
+     "target": "praatio.data_classes.klattgrid.KlattPointTier.modifyValues",
+     "old": "(timestamp, modFunc(float(value)))", "new": "(modFunc(timestamp), modFunc(float(value)))"},
+    {"name": "lte-tolerance", "props": ["C14"], "file": "praatio/utilities/my_math.py",
+     "target": "praatio.utilities.my_math.lessThanOrEqual",
+     "old": "    return isclose(a, b) or a < b", "new": "    return isclose(a, b, 1e-3) or a < b"},
+    {"name": "values-in-interval", "props": ["C15"], "file": U, "target": "praatio.utilities.utils.getValuesInInterval",
+     "old": "if start <= time and end >= time:", "new": "if start <= time and end > time:"},
+    {"name": "getinterval-clamp", "props": ["C18"], "file": U, "target": "praatio.utilities.utils.getInterval",
+     "old": "    elif endTime > max:\n        endTime = max", "new": "    elif endTime > max:\n        endTime = endTime",
+     "config": ["reverse=False"]},
+    {"name": "remove-blanks", "props": ["C03"], "file": "praatio/utilities/textgrid_io.py",
+     "target": "praatio.utilities.textgrid_io._removeBlanks",
+     "old": "        return entry[-1] != \"\"", "new": "        return entry[0] != \"\""},
     {"name": "ctor-no-sort", "props": ["C05"], "file": IT, "target": ITC + ".__init__",
      "old": "    processedEntries.sort()\n    return processedEntries", "new": "    return processedEntries"},
 ]
